@@ -150,6 +150,20 @@ def apply_body_rules(rw, src, f, body_open, body_close, loops, cfg):
                 rw.insert_after(lp["body_open"] - 1, ") + 1", "R21-inclusive-range")
                 break
             k += 1
+    # R20: `<chain>.collect()` that builds a Polynomial (FromIterator for Polynomial) -> `Polynomial::vx_from_vec(<chain>.collect())`,
+    #      vx_from_vec being that FromIterator impl extracted at I = Vec<R>
+    want = f.opts.get("collect_polynomial")
+    if want:
+        from .extract import postfix_operand_start
+        occ = [q for q in range(body_open + 1, body_close - 3)
+               if toks[q].text == "." and toks[q + 1].text == "collect" and toks[q + 2].text == "(" and toks[q + 3].text == ")"]
+        for n in want:
+            if n > len(occ):
+                raise Undecided(f"anchor lost: {f.key} has {len(occ)} collect() calls, rule names #{n}")
+            q = occ[n - 1]
+            s0 = postfix_operand_start(src, q + 3, body_open)
+            rw.insert(s0, "Polynomial::vx_from_vec(", "R20-collect-into-polynomial")
+            rw.insert_after(q + 3, ")", "R20-collect-into-polynomial")
     # R22: `m[(i, j)] = e;` on a shim matrix type -> `m.vx_set((i, j), e);`  (IndexMut assignment spelled as a call)
     for name in f.opts.get("index_assign", ()):
         for q in range(body_open + 1, body_close):
